@@ -89,6 +89,11 @@ def hp2dec (hp : ℝ) : Except PyErr ℝ :=
     let d := sec / 3600 + (mn : ℝ) / 60 + (deg : ℝ)
     .ok (if hp ≥ 0 then d else -d)
 
+/-- Python `min(a, b)`: `b if b < a else a` -/
+def pmin (a b : ℝ) : ℝ := if b < a then b else a
+/-- Python `max(a, b)`: `b if b > a else a` -/
+def pmax (a b : ℝ) : ℝ := if b > a then b else a
+
 theorem roundHalfEven_close (x : ℝ) : |(roundHalfEven x : ℝ) - x| ≤ 1 / 2 := by
   unfold roundHalfEven
   split_ifs with h1 h2
